@@ -20,6 +20,8 @@ LayerVerdicts(ev) ==
   \o (IF ~IsFloat(ev.wt) /\ ~Holds(ev.w, T(ev.wt)) THEN <<"weight_outside_reported_type">> ELSE <<>>)
   \o (IF ev.hasb = 1 /\ ~IsFloat(ev.bt) /\ ~Holds(ev.b, T(ev.bt)) THEN <<"bias_outside_reported_type">> ELSE <<>>)
   \o (IF ~IsFloat(ev.it) /\ ~Holds(ev.x, T(ev.it)) THEN <<"activation_outside_reported_type">> ELSE <<>>)
+  \* the published dictionary (int_bits including the sign bit) describes the same fixed-point types as the map
+  \o (IF ev.jok # 1 THEN <<"published_report_differs_from_type_map">> ELSE <<>>)
 \* 2^size >= obs
 EstimateVerdicts(ev) ==
   LET o == V(ev.obs) IN
